@@ -37,7 +37,7 @@ CHECKS = {
  'C13': dict(technique=CONC, ref='6.13',
              text='Cancel / quantity-amend acknowledgements in two-thread programs: success means out of the book and nothing of the order executed or handed out twice; not-found although the order rests before and after is the recorded known finding C13/not-found-while-held (printed as KNOWN-FINDING after replay under the schedule); in the sequential placements (the other thread ran to completion first) not-found is accepted only if the other thread reports the order as filled or handed back, or match_against lets it leave silently.'),
  'C14': dict(technique=CONC + '; UUIDv5 as an uninterpreted injective function', ref='6.14',
-             text='2 threads x N calls of UuidGenerator::next from an arbitrary counter value and namespace: ids pairwise different for every well-nested schedule; a match racing next() on the same generator (transaction id vs issued id); two generators with equal namespace issue equal sequences (4 calls).'),
+             text='2 threads x N calls of UuidGenerator::next from an arbitrary counter value and namespace: ids pairwise different for every well-nested schedule; a match racing next() on the same generator (transaction id vs issued id); two generators with equal namespace issue equal sequences (4 calls); inductive form for any number of calls and any distance between them: next() advances the counter by exactly one, and generators of one namespace standing at two DIFFERENT arbitrary 64-bit counter values issue different ids.'),
  'C15': dict(technique=SEQ + '; concurrent half: ' + CONC, ref='6.15',
              text='Per operation the four counters named by the statement move by exactly the events of that operation, from arbitrary counter values (any history length) and in histories of depth D; concurrent half: two-thread programs, counters vs events at quiescence for every well-nested schedule.'),
 }
